@@ -1,6 +1,6 @@
 (* C14 — functions mean their body, are defined once; inconsistent bodies are rejected.  Property theorems only. *)
 From Coq Require Import List String NArith Arith Bool.
-From Spox Require Import Base IR Show Build Sem Plan Validate BuildFacts SemFacts FuncFacts CompilePres ScopeFacts EmitFacts FunDefFacts.
+From Spox Require Import Base IR Show Build Sem Plan Validate BuildFacts SemFacts FuncFacts CompilePres ScopeFacts EmitFacts FunDefFacts AdaptFacts ReqFacts CoverFacts FunCoverFacts.
 Import ListNotations.
 
 (* The returned model has exactly one definition per used (domain, name): every function called from the main graph, from a
@@ -82,3 +82,16 @@ Theorem C14_functions_recorded_at_every_depth :
     compile p un args_of own_of fbuild fuel s g prefix vi = inl (mg, s', rq, fs) -> Covered p (srcs_graph mg) fs.
 Proof. exact compile_functions_recorded. Qed.
 Print Assumptions C14_functions_recorded_at_every_depth.
+
+(* "... whose opset imports cover its body", by construction (no validator, no premise): for every FunctionProto of a returned model - a
+   function called from the main graph, from a control-flow body or only from another function - every node of its body and every
+   (domain, version) that node requires, the definition imports that domain (with "ai.onnx" folded into "") at a version that is at
+   least the required one. *)
+Theorem C14_function_imports_cover_the_body_by_construction :
+  forall p r m inputs outputs,
+  build_public p r = inl m -> all_vars (r_inputs r) = Some inputs -> all_vars (r_outputs r) = Some outputs ->
+  exists args, forall d, In d (mfunctions m) -> forall u, In u (flat_map srcs_node (f_body d)) ->
+    forall dv, In dv (node_req (with_main p (Some args) outputs) u) ->
+      exists v, lookup String.eqb (fold_domain (fst dv)) (f_imports d) = Some v /\ snd dv <= v.
+Proof. exact build_public_function_imports_cover. Qed.
+Print Assumptions C14_function_imports_cover_the_body_by_construction.
